@@ -21,7 +21,7 @@ CXX = os.environ.get("VERIF_CXX", "g++")
 BASE = ["-std=gnu++17", "-DHAVE_CONFIG_H", "-D%s=1" % GUARD, "-I" + REPO, "-I" + REPO + "/include",
         "-I" + REPO + "/runtime", "-I" + REPO + "/compiler", "-I" + HSRC, "-w", "-fno-omit-frame-pointer", "-pthread"]
 VARIANTS = {
-    "asan": ["-fsanitize=address,undefined", "-fno-sanitize-recover=undefined", "-O1", "-g1"],
+    "asan": ["-fsanitize=address,undefined", "-fno-sanitize-recover=undefined", "-fno-sanitize=alignment,vptr", "-O1", "-g1"],  # by design in fix8: misaligned 4-byte loads in calc_chksum; static_cast between same-layout Field<T,tag> typedefs of different schemas (vptr). Pass -fsanitize=alignment via defines to see the former
     "tsan": ["-fsanitize=thread", "-O1", "-g1"],
     "plain": ["-O1", "-g1"],
 }
@@ -159,18 +159,20 @@ UTEST_EXTRA = ("<field number='9999' name='SampleUserField'  type='STRING' messa
                "type='STRING' messages='NewOrderSingle:N ExecutionReport:N OrderCancelRequest:Y' />")
 
 
-def gen_schema(xml, prefix, ns, extra_fields=None, f8c_args=(), tag=None):
+def gen_schema(xml, prefix, ns, extra_fields=None, f8c_args=(), tag=None, second_only=True):
     """Run the freshly built f8c on a schema; returns the directory with the generated sources.
     Cached by (compiler binary, schema text, arguments)."""
     comp = f8c()
     with open(xml, "rb") as fh:
         text = fh.read()
-    key = _sha(comp, text, prefix, ns, extra_fields or "", " ".join(f8c_args))
+    key = _sha(comp, text, prefix, ns, extra_fields or "", " ".join(f8c_args), str(second_only))
     out = os.path.join(BUILD, "gen", (tag or prefix) + "-" + key[:16])
     if os.path.exists(os.path.join(out, ".done")):
         return out
     os.makedirs(out, exist_ok=True)
-    cmd = [comp, "-sVp", prefix, "-n", ns, "-o", out] + list(f8c_args) + [xml]
+    # -s = second pass only (no component expansion): what utests/Makefile.am uses for FIX42UTEST, which has
+    # no components; schemas with components (FIX44, as built by stocklib/Makefile.am) need the full run
+    cmd = [comp, "-sVp" if second_only else "-Vp", prefix, "-n", ns, "-o", out] + list(f8c_args) + [xml]
     if extra_fields:
         cmd += ["-F", extra_fields]
     env = dict(os.environ, ASAN_OPTIONS="detect_leaks=0")
@@ -192,7 +194,7 @@ def stock_schema(which, variant="asan"):
         d = gen_schema(os.path.join(REPO, "schema", "FIX42UTEST.xml"), "utest", "UTEST", UTEST_EXTRA)
         return schema_objs(d, "utest", variant), d, "UTEST", "utest"
     if which == "fix44":
-        d = gen_schema(os.path.join(REPO, "schema", "FIX44.xml"), "fix44", "FIX44")
+        d = gen_schema(os.path.join(REPO, "schema", "FIX44.xml"), "fix44", "FIX44", second_only=False)
         return schema_objs(d, "fix44", variant), d, "FIX44", "fix44"
     raise KeyError(which)
 
